@@ -261,8 +261,11 @@ def _st_plain(shs, roots=ROOTS35):
     return st.builds(mk, st.sampled_from(shs), st.sampled_from(roots), st.integers(0, 11) | st.just(0))
 
 
-def _st_slash(shs):
-    return st.builds(lambda p, b: ["slash", p[1], p[2], p[3], b], _st_plain(shs), st.sampled_from(ROOTS35))
+def _st_slash(shs, any_bass=True):
+    # basses: the usual spellings, and any valid name (mixed or many accidentals) - the bass is kept as written.  Inside polychords
+    # only the usual spellings are used: "a note equal to the one just before it" is unambiguous for them only.
+    bass = st.sampled_from(ROOTS35) | st.sampled_from(ROOTS35) | st.sampled_from(T.all_names(4)) if any_bass else st.sampled_from(ROOTS35)
+    return st.builds(lambda p, b: ["slash", p[1], p[2], p[3], b], _st_plain(shs), bass)
 
 
 def _st_poly(shs):
@@ -277,7 +280,7 @@ def _st_poly(shs):
     four = st.builds(lambda x, yzw: ["poly", x, yzw], _st_plain(shs), three)
     # slash chords as the upper and / or the lower part
     noslash = [sh for sh in shs if "/" not in sh]
-    withslash = st.builds(lambda x, y: ["poly", x, y], _st_slash(noslash) | _st_plain(shs), _st_slash(noslash) | _st_plain(shs))
+    withslash = st.builds(lambda x, y: ["poly", x, y], _st_slash(noslash, False) | _st_plain(shs), _st_slash(noslash, False) | _st_plain(shs))
     return st.one_of(two, two, three, four, withslash)
 
 
